@@ -73,11 +73,28 @@ pub fn parse_chunk(p: &mut LuaParser) {
     m.complete(p);
 }
 
+/// Enter one level of nesting, or report a syntax error when the input is nested too deeply.
+fn enter_level(p: &mut LuaParser) -> Result<(), ParseFailReason> {
+    if p.enter_level() {
+        return Ok(());
+    }
+
+    p.push_error(LuaParseError::syntax_error_from(
+        &t!("chunk has too many syntax levels"),
+        p.current_token_range(),
+    ));
+    Err(ParseFailReason::UnexpectedToken)
+}
+
 fn parse_block(p: &mut LuaParser) -> ParseResult {
+    // every nested statement list is a block; the keyword that opens it is already consumed,
+    // so failing here cannot stall the error recovery of the enclosing statement list
+    enter_level(p)?;
     let m = p.mark(LuaSyntaxKind::Block);
 
     parse_stats(p);
 
+    p.leave_level();
     Ok(m.complete(p))
 }
 
